@@ -18,21 +18,28 @@ class StubDH(object):
     def __init__(self, quotes=None):
         self.q = dict(quotes or {})
         self.calls = []
+        self.before = None          # optional (instant, factor): instants earlier than that are quoted at factor x the table
 
     def set(self, asset, bid, ask=None):
         self.q[asset] = (bid, bid if ask is None else ask)
 
+    def _at(self, dt, asset):
+        b, a = self.q.get(asset, (float('nan'), float('nan')))
+        if self.before is not None and dt < self.before[0]:
+            return (b * self.before[1], a * self.before[1])
+        return (b, a)
+
     def get_asset_latest_bid_price(self, dt, asset):
-        return self.q.get(asset, (float('nan'), float('nan')))[0]
+        return self._at(dt, asset)[0]
 
     def get_asset_latest_ask_price(self, dt, asset):
-        return self.q.get(asset, (float('nan'), float('nan')))[1]
+        return self._at(dt, asset)[1]
 
     def get_asset_latest_bid_ask_price(self, dt, asset):
-        return self.q.get(asset, (float('nan'), float('nan')))
+        return self._at(dt, asset)
 
     def get_asset_latest_mid_price(self, dt, asset):
-        b, a = self.q.get(asset, (float('nan'), float('nan')))
+        b, a = self._at(dt, asset)
         return (b + a) / 2.0
 
 
